@@ -153,6 +153,8 @@ def make(seed: int, i: int, tier: str = 'quick', kind=None, nrows=None) -> dict:
             free_used = [b for b in sorted(_betas_in(s['ast'], s['shared'])) if s['betas'][b][1] == 0]
             if not free_used:
                 continue
+            if 'belongs' in exprs.ops_in(s['ast'], s['shared']):
+                continue  # the engine refuses to differentiate BelongsTo: no derivative to aggregate
             pt = _point(r, s['betas'])
             bv = {k: v[0] for k, v in s['betas'].items()}
             bv.update(pt)
